@@ -32,10 +32,10 @@ Clauses (returned text = first violated clause):
   left; it cannot return before it was called; it has returned once first-bind timeout + alive
   duration have elapsed since the call.
 
-One behaviour outside the property text is mirrored to keep the bookkeeping of "which packet
-connection is open" exact (see notes/C15.md, observation O1): when a packet connection closes, the
-mux's close watcher also closes the packet connection of the OTHER family with the same ufrag and
-local IP.
+Before fix F22 the mux's close watcher removed map entries by key in both family maps, so closing
+one packet connection also closed the packet connection of the OTHER family with the same ufrag and
+local IP (and, under concurrency, a newer connection under the same key). The monitor does not mirror
+that: on such a tree the **delivery** clause fires (notes/C15.md, F22 / O1).
 -/
 namespace IceSpec.C15
 
@@ -131,16 +131,13 @@ def timeoutOf (t : Nat) : Nat := if t = 0 then 30000 else t
 
 def setAt {α : Type} (l : List α) (i : Nat) (f : α → α) : List α := l.modify i f
 
-/-- close record `p` and, per observation O1, the other-family record with the same ufrag and local IP -/
+/-- close record `p` (and nothing else: a packet connection is closed only for its own reasons) -/
 def closeRec (pcs : List MPc) (p : Nat) : List MPc :=
   match pcs[p]? with
   | none => pcs
   | some pc =>
     if !pc.isOpen then pcs else
-    pcs.mapIdx (fun i q =>
-      if i = p then { q with isOpen := false, expires := none }
-      else if q.isOpen && q.ufrag == pc.ufrag && q.lip == pc.lip && q.v6 != pc.v6 then { q with isOpen := false, expires := none }
-      else q)
+    pcs.mapIdx (fun i q => if i = p then { q with isOpen := false, expires := none } else q)
 
 def closeWhere (pcs : List MPc) (sel : MPc → Bool) : List MPc :=
   (List.range pcs.length).foldl (fun acc i => match acc[i]? with
